@@ -7,6 +7,6 @@ import (
 
 func main() {
 	hx.Main(func(o hx.RunOpts) error {
-		return crashx.Campaign(o, "C08", "transaction programs (5 directed: update of a root, split, node removal, first root of an empty store, store created by the crashed transaction; then generated commitx programs over 1-2 stores) are run by a CHILD PROCESS that dies (os.Exit(137) inside the backend decorator) right before backend call k of Commit, for every k (generated programs, quick tier: every third k); a FRESH child process with the clock three hours ahead (past the 5-minute priority-log age, the 70-minute log age and the one-hour reservation window) runs doPriorityRollbacks + processExpiredTransactionLogs through the overlay entry points, dumps the stores cold, the disk state and the reachability walk, then a follow-up writer upserts the same keys. Compared with the model: calls made before the crash, disk state at the crash, the recovery's durable calls, disk state after recovery, verdict. Oracle: dump in {before, expected after}, no live handle without blob, follow-up values committed and visible, both log files gone. distinct = canonical case hash; non-trivial = the crash point lies inside Commit (k >= 2)")
+		return crashx.Campaign(o, "C08", "transaction programs (6 directed: update of a root, split, node removal, first root of an empty store, removal of nodes an earlier commit had updated, store created by the crashed transaction; then generated commitx programs over 1-2 stores) are run by a CHILD PROCESS that dies (os.Exit(137) inside the backend decorator) right before backend call k of Commit, for every k (generated programs, quick tier: every third k); a FRESH child process with the clock three hours ahead (past the 5-minute priority-log age, the 70-minute log age and the one-hour reservation window) runs doPriorityRollbacks + processExpiredTransactionLogs through the overlay entry points, dumps the stores cold, the disk state and the reachability walk, then a follow-up writer upserts the same keys. Compared with the model: calls made before the crash, disk state at the crash, the recovery's durable calls, disk state after recovery, verdict. Oracle: dump in {before, expected after}, no live handle without blob, follow-up values committed and visible, both log files gone. distinct = canonical case hash; non-trivial = the crash point lies inside Commit (k >= 2)")
 	}, "", nil, crashx.Subcommands())
 }
